@@ -35,8 +35,9 @@ type Printer struct {
 	// AmpExcluded counts `&` positions that were parenthesised defensively.
 	AmpExcluded int
 
-	sb   strings.Builder
-	last tokKind
+	sb     strings.Builder
+	last   tokKind
+	frozen int
 }
 
 type tokKind int
@@ -47,6 +48,7 @@ const (
 	tkPunct        // brackets, comma, semicolon, dot
 	tkOp           // operators
 	tkStr          // string literal
+	tkUnary        // the prefix operator !
 )
 
 // NewPrinter makes a canonical printer.
@@ -60,7 +62,7 @@ func (p *Printer) choose(n int, label string) int {
 }
 
 func (p *Printer) chooseLit(n int, label string) int {
-	if !p.VaryLits || n <= 1 {
+	if !p.VaryLits || n <= 1 || p.frozen > 0 {
 		return 0
 	}
 	return p.C.Choose(n, label)
@@ -77,7 +79,7 @@ func (p *Printer) emit(tok string, kind tokKind) {
 		}
 		// an operator directly followed by an operator can glue into another token
 		// ("&" "&", "<" "=", "!" "=", "/" "/", "/" "*", "-" "-" is fine but kept apart for readability)
-		if p.last == tkOp && kind == tkOp {
+		if (p.last == tkOp || p.last == tkUnary) && (kind == tkOp || kind == tkUnary) {
 			needSpace = true
 		}
 		// number followed by '.' would extend the literal ("1" "." "5"); word + '.' is normal (F.X),
@@ -96,7 +98,10 @@ func (p *Printer) emit(tok string, kind tokKind) {
 
 func (p *Printer) pickGap(needSpace bool, next tokKind) string {
 	if !p.Vary {
-		if needSpace || (p.last != tkPunct && next != tkPunct) {
+		if p.last == tkUnary && !needSpace {
+			return ""
+		}
+		if needSpace || next == tkOp || next == tkUnary || p.last == tkOp || (p.last != tkPunct && next != tkPunct) {
 			return " "
 		}
 		return ""
@@ -287,6 +292,8 @@ func isAtom(e Expr) bool {
 	switch e.(type) {
 	case *Lit, *Path, *Call, *Member, *Index:
 		return true
+	case *Frozen:
+		return isAtom(e.(*Frozen).X)
 	case *Not:
 		// !atom is an atom; !(expr) is an expression
 		return isAtom(e.(*Not).X)
@@ -323,7 +330,7 @@ func (p *Printer) needParens(parent *Bin, child Expr, right bool) bool {
 
 // Expr renders an expression.
 func (p *Printer) Expr(e Expr) {
-	if p.Vary {
+	if p.Vary && p.frozen == 0 {
 		if _, isParen := e.(*Paren); !isParen && p.choose(8, "xparen") == 7 {
 			p.punct("(")
 			p.exprNoExtra(e)
@@ -346,10 +353,10 @@ func (p *Printer) exprNoExtra(e Expr) {
 		p.punct(")")
 	case *Not:
 		if isAtom(x.X) {
-			p.op("!")
+			p.emit("!", tkUnary)
 			p.atom(x.X)
 		} else {
-			p.op("!")
+			p.emit("!", tkUnary)
 			p.punct("(")
 			inner := x.X
 			if pr, ok := inner.(*Paren); ok {
@@ -376,6 +383,10 @@ func (p *Printer) operand(parent *Bin, child Expr, right bool) {
 
 func (p *Printer) atom(e Expr) {
 	switch x := e.(type) {
+	case *Frozen:
+		p.frozen++
+		p.atom(x.X)
+		p.frozen--
 	case *Lit:
 		p.lit(x)
 	case *Path:
@@ -408,7 +419,7 @@ func (p *Printer) atom(e Expr) {
 		p.Expr(x.Idx)
 		p.punct("]")
 	case *Not:
-		p.op("!")
+		p.emit("!", tkUnary)
 		p.atom(x.X)
 	default:
 		panic(fmt.Sprintf("not an atom: %T", e))
@@ -419,8 +430,12 @@ func (p *Printer) path(x *Path) {
 	p.word(x.Root)
 	for _, s := range x.Steps {
 		if s.Index != nil {
+			// a selector's spelling is part of the variable's identity in the working memory
+			// (one canonical spelling per path): no redundant parentheses inside
 			p.punct("[")
+			p.frozen++
 			p.Expr(s.Index)
+			p.frozen--
 			p.punct("]")
 		} else {
 			p.punct(".")
